@@ -128,6 +128,9 @@ fn c16_string(c: &mut Ctx, s: &str, deep: bool) {
     if !deep {
         return;
     }
+    // the same text goes through the *other* validator first (a client that publishes to the string it
+    // just subscribed to): a decision remembered from there must not leak into this one
+    let _ = TopicName::try_from(s.to_string());
     match TopicFilter::try_from(s.to_string()) {
         Ok(f) => {
             if inv || &*f != s {
@@ -627,6 +630,8 @@ fn c18_string(c: &mut Ctx, s: &str, deep: bool) {
     if !deep {
         return;
     }
+    // the same text through the filter validator first (see c16_string)
+    let _ = TopicFilter::try_from(s.to_string());
     match TopicName::try_from(s.to_string()) {
         Ok(t) => {
             if !want_valid {
